@@ -58,7 +58,13 @@ func init() {
 		switch e.Kind {
 		case "loop":
 			mon.loops[e.Site]++
-			if mon.loops[e.Site] > mon.loopBudget {
+			budget := mon.loopBudget
+			if e.Site != "DeepestRef" {
+				// fixpoint loops need at most one pass per definition / remote reference; the walk inside DeepestRef is
+				// entered once per $ref and per pass, hence its larger (cumulative) budget
+				budget = mon.loopBudget / 10
+			}
+			if mon.loops[e.Site] > budget {
 				n := mon.loops[e.Site]
 				mon.active = false
 				panic(BudgetExceeded{"loop", e.Site, n})
